@@ -350,6 +350,12 @@ def check_room_left(rep, fl, rule="R01.6"):
 
 def check_C01(rep, fl):
     facts = fl.facts
+    # "the total cost charged for resident entries": what clear() un-charges it also removes - store.clear() empties every
+    # shard, waiting for its lock (a shard skipped because somebody holds it keeps entries the policy no longer charges)
+    import props_store as _ps0
+    import props_life as _pl0
+    _ps0.keep_rules(rep, fl, _pl0.check_clear_parts, {"R11.2"}, rename="R01.9")
+    _ps0.check_blocking_shard_locks(rep, fl, rule="R01.9")
     # ---- R01.1 writers -----------------------------------------------------------
     writers = slfu_writers(facts)
     for root, flds in sorted(writers.items()):
@@ -1046,6 +1052,9 @@ def check_C07_all(rep, fl):
     # and one policy (a per-handle buffer dies with its handle, unflushed)
     import props_cache as _pc
     _pc.check_handle_sharing(rep, fl, rule="R07.9", fields=("get_buf", "policy"))
+    # ... of resident keys and of newcomers alike: a lookup is recorded before the store is consulted, hit or miss (a key
+    # that is asked for again and again while absent is exactly the newcomer that should win the duel)
+    _ps.keep_rules(rep, fl, _pc.check_C15, {"R15.1"}, rename="R07.9")
     # "when there is room" / "only while room is still lacking": room is max_cost - used - cost, with its sign
     check_room_left(rep, fl)
     # R07.7: what the policy decides is carried out - every victim leaves the store (and goes to on_evict), whether
